@@ -256,6 +256,12 @@ class ExprMixin:
         return VList(a.items + b.items)
       if isinstance(a, VStr) and isinstance(b, VStr):
         return VStr(None if a.s is None or b.s is None else a.s + b.s)
+      if isinstance(a, VMList) and isinstance(b, VMList) and not a.is_deque and not b.is_deque and a.seq.kind == b.seq.kind:
+        # list + list of symbolic lengths: a NEW list holding the items of both, in order
+        sa, sb = a.seq, b.seq
+        j = z3.Int(self.path.fresh_name('j'))
+        arr = z3.Lambda([j], z3.If(j < sa.n, z3.Select(sa.arr, j), z3.Select(sb.arr, j - sa.n)))
+        return VMList(VSeq(arr, sa.n + sb.n, sa.kind))
     if isinstance(op, ast.Mult):
       if isinstance(a, VList) and isinstance(b, VInt) and z3.is_int_value(b.t):
         return VList(a.items * b.t.as_long())
